@@ -2,6 +2,7 @@ package main
 
 import (
 	"bytes"
+	"encoding/hex"
 	"fmt"
 	"go/types"
 	"math/big"
@@ -64,6 +65,11 @@ func (e *Exec) intrinsic(th *Thread, fn *ssa.Function, args []Value) (Value, boo
 		return nil, true
 	}
 	name := fnName(fn)
+	// harness redirects take precedence over the built-in models
+	if r, ok := e.redirects[name]; ok {
+		e.stubs["redirect:"+name]++
+		return e.callSync(th, r, args), true
+	}
 	if h, ok := intrinsics[name]; ok {
 		e.stubs[name]++
 		return h(e, th, fn, args), true
@@ -441,6 +447,17 @@ func (e *Exec) toNativeTyped(th *Thread, v Value, t types.Type, verb byte) (inte
 		bs := make([]byte, len(elems))
 		for i, el := range elems {
 			tt, ok := el.(*Term)
+			if ok && tt.sort.K == SInt && e.intMode {
+				// Int mode: bytes are integers 0..255
+				if !tt.IsConst() {
+					return x, false
+				}
+				if tt.c.Sign() < 0 || tt.c.BitLen() > 8 {
+					return fmt.Sprintf("<%d elems>", len(elems)), true
+				}
+				bs[i] = byte(tt.c.Uint64())
+				continue
+			}
 			if !ok || tt.sort.K != SBV || tt.sort.W != 8 {
 				return fmt.Sprintf("<%d elems>", len(elems)), true
 			}
@@ -510,7 +527,13 @@ func (e *Exec) sprintf(th *Thread, format string, args []Value) Value {
 		case *SymStr:
 			parts = append(parts, s.parts...)
 		case *Term:
-			parts = append(parts, symPart{verb: spec, t: s})
+			uns := false
+			if iv, ok := a.(IfaceV); ok && iv.t != nil {
+				if b, ok := iv.t.Underlying().(*types.Basic); ok && b.Info()&types.IsUnsigned != 0 {
+					uns = true
+				}
+			}
+			parts = append(parts, symPart{verb: spec, t: s, uns: uns})
 		default:
 			// symbolic byte arrays etc: one part per element
 			var elems []Value
@@ -584,7 +607,7 @@ func (e *Exec) concreteBytes(v Value) ([]byte, bool) {
 func (e *Exec) bytesValue(bs []byte) SliceV {
 	out := make(SliceV, len(bs))
 	for i, b := range bs {
-		out[i] = e.ctx.BVConstU(8, uint64(b))
+		out[i] = e.intConst(8, int64(b))
 	}
 	return out
 }
@@ -993,18 +1016,37 @@ func init() {
 	I["strconv.Itoa"] = func(e *Exec, th *Thread, fn *ssa.Function, a []Value) Value {
 		t := a[0].(*Term)
 		if !t.IsConst() {
-			return &SymStr{parts: []interface{}{symPart{"%d", t}}}
+			return &SymStr{parts: []interface{}{symPart{verb: "%d", t: t}}}
 		}
 		return strconv.Itoa(int(t.Int64()))
 	}
 	I["strconv.FormatUint"] = func(e *Exec, th *Thread, fn *ssa.Function, a []Value) Value {
 		t := a[0].(*Term)
 		if !t.IsConst() {
-			return &SymStr{parts: []interface{}{symPart{"%d", t}}}
+			return &SymStr{parts: []interface{}{symPart{verb: "%d", t: t, uns: true}}}
 		}
 		return strconv.FormatUint(t.Uint64(), e.concreteInt(a[1], "base"))
 	}
+	// the decimal text of a symbolic integer parses back to that integer
+	symDecimal := func(v Value) (symPart, bool) {
+		ss, ok := v.(*SymStr)
+		if !ok || len(ss.parts) != 1 {
+			return symPart{}, false
+		}
+		p, ok := ss.parts[0].(symPart)
+		if !ok || p.verb != "%d" || !(p.t.sort.K == SBV && p.t.sort.W == 64 || p.t.sort.K == SInt) {
+			return symPart{}, false
+		}
+		return p, true
+	}
+	rangeErr := func(e *Exec, what string) Value { return e.newError("strconv."+what+": parsing symbolic decimal: value out of range or invalid syntax", nil) }
 	I["strconv.ParseUint"] = func(e *Exec, th *Thread, fn *ssa.Function, a []Value) Value {
+		if p, ok := symDecimal(a[0]); ok && e.concreteInt(a[1], "base") == 10 && e.concreteInt(a[2], "bits") == 64 {
+			if !p.uns && e.branch(e.ctx.SLt(p.t, e.intConst(64, 0))) {
+				return TupleV{e.intConst(64, 0), rangeErr(e, "ParseUint")} // a leading minus sign
+			}
+			return TupleV{p.t, IfaceV{}}
+		}
 		v, err := strconv.ParseUint(e.goString(a[0], "ParseUint"), e.concreteInt(a[1], "base"), e.concreteInt(a[2], "bits"))
 		if err != nil {
 			return TupleV{e.ctx.BVConstU(64, v), e.newError(err.Error(), nil)}
@@ -1012,6 +1054,15 @@ func init() {
 		return TupleV{e.ctx.BVConstU(64, v), IfaceV{}}
 	}
 	I["strconv.ParseInt"] = func(e *Exec, th *Thread, fn *ssa.Function, a []Value) Value {
+		if p, ok := symDecimal(a[0]); ok && e.concreteInt(a[1], "base") == 10 && e.concreteInt(a[2], "bits") == 64 {
+			if p.uns && p.t.sort.K == SBV && e.branch(e.ctx.SLt(p.t, e.intConst(64, 0))) {
+				return TupleV{e.intConst(64, 1<<63-1), rangeErr(e, "ParseInt")} // above MaxInt64
+			}
+			if p.uns && p.t.sort.K == SInt && e.branch(e.ctx.SLt(e.intConst(64, 1<<63-1), p.t)) {
+				return TupleV{e.intConst(64, 1<<63-1), rangeErr(e, "ParseInt")} // above MaxInt64
+			}
+			return TupleV{p.t, IfaceV{}}
+		}
 		v, err := strconv.ParseInt(e.goString(a[0], "ParseInt"), e.concreteInt(a[1], "base"), e.concreteInt(a[2], "bits"))
 		if err != nil {
 			return TupleV{e.ctx.BVConst(64, v), e.newError(err.Error(), nil)}
@@ -1045,6 +1096,13 @@ func init() {
 			panic(pathAbort{"error", "bytes.Contains on symbolic content"})
 		}
 		return e.ctx.Bool(bytes.Contains(s, o))
+	}
+	I["encoding/hex.DecodeString"] = func(e *Exec, th *Thread, fn *ssa.Function, a []Value) Value {
+		b, err := hex.DecodeString(e.goString(a[0], "hex.DecodeString"))
+		if err != nil {
+			return TupleV{e.bytesValue(b), e.newError(err.Error(), nil)}
+		}
+		return TupleV{e.bytesValue(b), IfaceV{}}
 	}
 	I["encoding/hex.EncodeToString"] = func(e *Exec, th *Thread, fn *ssa.Function, a []Value) Value {
 		return e.sprintf(th, "%x", []Value{a[0]})
